@@ -1,6 +1,6 @@
 SPECIFICATION TraceSpec
-CONSTANTS AsCoded = FALSE
-          Fixed = FALSE
+CONSTANTS AsCoded = TRUE
+          Fixed = TRUE
           Mode = "http"
           Messages <- NoMessages
           MaxMsgs = 1
